@@ -145,12 +145,13 @@ def run_machine(desc):
         texts_multi = {}
         for d in allp:
             texts_multi.setdefault(d[1], set()).add((d[0].rstrip('b') if d[0].endswith('b') else d[0], d[2], d[0].endswith('b')))
-        stats = {'hits': 0, 'evictions': 0}
+        stats = {'hits': 0, 'evictions': 0, 'list_calls': 0}
 
         class Machine(RuleBasedStateMachine):
             def __init__(self):
                 super().__init__()
                 self.kept = []
+                self.plist = []
                 self.history = []
                 self.info0 = util.cache_info()
                 self.hit_seen = False
@@ -196,6 +197,45 @@ def run_machine(desc):
             def clear(self):
                 self.history.append('cache_clear')
                 util.clear_caches()
+
+            # one list object owned by the caller, edited in place between calls (nothing may remember it by reference)
+            @rule(op=st.integers(0, 3), i=st.integers(0, len(PATS) - 1))
+            def list_edit(self, op, i):
+                if op == 0 and self.plist:
+                    self.plist.pop()
+                elif op == 1 and self.plist:
+                    self.plist[i % len(self.plist)] = PATS[i]
+                elif op == 2 and self.plist:
+                    self.plist.clear()
+                    self.plist.append(PATS[i])
+                else:
+                    self.plist.append(PATS[i])
+                self.history.append(('list_edit', op, PATS[i]))
+
+            @precondition(lambda self: self.plist)
+            @rule(n=st.integers(0, 5), f=st.integers(0, 3), via=st.integers(0, 2))
+            def list_call(self, n, f, via):
+                fl = (0, F.D, F.E, F.I)[f]
+                nm = NAMES[n]
+                singles = [table.get(('fn', p_, fl, nm)) for p_ in self.plist]
+                if any(not isinstance(v, bool) for v in singles):
+                    return
+                want = any(singles)
+                if via == 0:
+                    got = F.fnmatch(nm, self.plist, flags=fl)
+                elif via == 1:
+                    got = bool(F.filter([nm], self.plist, flags=fl))
+                else:
+                    got = F.compile(self.plist, flags=fl).match(nm)
+                out.evaluations += 1
+                self.history.append(('list_call', list(self.plist), fl, nm, via))
+                stats['list_calls'] += 1
+                if bool(got) != want:
+                    out.violation({'history': [list(h) if isinstance(h, tuple) else h for h in self.history[-30:]], 'call': ['fn-list', list(self.plist), fl, nm],
+                                   'got': bool(got), 'want': want,
+                                   'problem': 'a pattern list edited in place between calls is answered from an earlier state of the list'},
+                                  size=len(self.history), bucket=('list-alias', via))
+                    raise AssertionError('list aliasing')
 
             @rule(i=st.integers(0, len(PATS) - 1), f=st.integers(0, len(FLAGSETS_FN) - 1), gl=st.booleans())
             def keep(self, i, f, gl):
@@ -252,10 +292,13 @@ def run_machine(desc):
                                       settings=settings(max_examples=desc['n'], stateful_step_count=desc['steps'], deadline=None, database=None,
                                                         report_multiple_bugs=False, suppress_health_check=list(HealthCheck),
                                                         verbosity=Verbosity.quiet))
-        except AssertionError:
-            pass
+        except Exception:
+            # Hypothesis re-raises our AssertionError, or wraps it (FlakyFailure) when process-wide state made the replay differ
+            if not out.violations:
+                raise
         out.stats['histories_with_colliding_cache_hit'] += stats['hits']
         out.stats['histories_with_eviction'] += stats['evictions']
+        out.stats['calls_with_caller_owned_list'] += stats['list_calls']
         out.sample({'kind': 'history', 'pool': len(pool), 'hot': len(hot), 'filler': len(filler), 'histories': desc['n'],
                     'max_steps': desc['steps']})
     return out
@@ -645,8 +688,10 @@ def run_world(desc):
                                           settings=settings(max_examples=desc['n'], stateful_step_count=desc['steps'], deadline=None, database=None,
                                                             report_multiple_bugs=False, suppress_health_check=list(HealthCheck),
                                                             verbosity=Verbosity.quiet))
-            except AssertionError:
-                pass
+            except Exception:
+                # Hypothesis re-raises our AssertionError, or wraps it (FlakyFailure) when process-wide state made the replay differ
+                if not out.violations:
+                    raise
     finally:
         if home0 is None:
             os.environ.pop('HOME', None)
@@ -715,6 +760,35 @@ def replay(case):
                 os.environ.pop('HOME', None)
             else:
                 os.environ['HOME'] = home0
+    if 'history' in case and case.get('call', [None])[0] == 'fn-list':
+        # re-enact the edits on one list object; the answer for the final list must be the union of the single-pattern answers
+        plist = []
+        got = None
+        for h in case['history']:
+            if isinstance(h, list) and h and h[0] == 'list_edit':
+                op, pat = h[1], h[2]
+                if op == 0 and plist:
+                    plist.pop()
+                elif op == 1 and plist:
+                    plist[PATS.index(pat) % len(plist)] = pat
+                elif op == 2 and plist:
+                    plist.clear()
+                    plist.append(pat)
+                else:
+                    plist.append(pat)
+            elif isinstance(h, list) and h and h[0] == 'list_call' and plist:
+                _pl, fl, nm, via = h[1], h[2], h[3], h[4]
+                if via == 0:
+                    got = F.fnmatch(nm, plist, flags=fl)
+                elif via == 1:
+                    got = bool(F.filter([nm], plist, flags=fl))
+                else:
+                    got = F.compile(plist, flags=fl).match(nm)
+                final = (list(plist), fl, nm)
+        if got is None:
+            return True, {'note': 'no list call in the history'}
+        want = any(F.fnmatch(final[2], p_, flags=final[1]) for p_ in final[0])
+        return bool(got) == want, {'got': bool(got), 'want': want, 'list': final[0]}
     if 'history' in case and 'call' in case and 'how' not in case:
         with FC.built_tree(TREE) as (root, _r):
             d = tuple(case['call'])
